@@ -429,3 +429,48 @@ func H_distinctIDs(n int) {
 	verifAssert(err == nil, "C11: render with the identity catalogue failed")
 	verifAssert(got == plain, "C11: identity catalogue does not render the source text")
 }
+
+// H_pluralCases: plural messages with other case sets than {case 1}{default} (a further explicit
+// case before or after, no {case 1}, only a default). Whatever the extractor decides about them
+// (Validate may refuse what a PO entry cannot represent), a message it accepts renders through
+// the identity catalogue, under the English plural rule, exactly what it renders from the source,
+// for every n in 0..3.
+func H_pluralCases(v int) {
+	bodies := []string{
+		"{case 0}none for {$b}{case 1}one for {$b}{case 2}a pair for {$b}{default}{$n} for {$b}",
+		"{case 1}one{case 2}two{default}{$n} many",
+		"{case 0}zero{default}{$n} some",
+		"{default}{$n} any of {$b}",
+		"{case 1}one {$b}{default}{$n} of {$b}",
+	}
+	src := "{namespace n}\n" + c11Doc + "{template .t}\n[{msg desc=\"d\"}{plural $n}" + bodies[v] + "{/plural}{/msg}]{$l}{$a}{$c}{$x_1}\n{/template}\n"
+	reg, tofu := c11Registry(src)
+	n := verifChoose(4)
+	bs := verifString(1)
+	verifAssume(bs[0] >= 'a' && bs[0] <= 'c' || bs[0] == '<')
+	dm := data.Map{"a": data.Int(1), "b": data.String(bs), "c": data.Map{"x": data.String("C")}, "x_1": data.String("X"), "n": data.Int(int64(n)), "l": data.List{data.Int(1)}}
+	plain, perr := c11Render(tofu, "n.t", dm, nil)
+	verifAssert(perr == nil, "harness: render without catalogue failed")
+	var msgs []*ast.MsgNode
+	for _, t := range reg.Templates {
+		c11FindMsgs(t.Node, &msgs)
+	}
+	node := msgs[0]
+	if Validate(node) != nil {
+		verifObserve("extractable", "no")
+		return
+	}
+	verifObserve("extractable", "yes")
+	plural := node.Body.Children()[0].(*ast.MsgPluralNode)
+	b := &bundle{messages: map[uint64]soymsg.Message{}, locale: "en", pluralize: func(n int) int {
+		if n == 1 {
+			return 0
+		}
+		return 1
+	}}
+	b.messages[node.ID] = newMessage(node.ID, plural.VarName, []string{Msgid(node), MsgidPlural(node)})
+	got, err := c11Render(tofu, "n.t", dm, b)
+	verifObserve("translated", got)
+	verifAssert(err == nil, "C11: render of an extractable plural message with its identity catalogue failed")
+	verifAssert(got == plain, "C11: identity translation of a plural message does not render the source text")
+}
